@@ -239,7 +239,37 @@ def part_c(ctx, corr):
             kk["base_extra"] = dict(cfgk.get("base_extra") or {}, **({"persist": True, "persist_mode": "real_time"} if persist else {}))
             persist_mod.RESUME[0] = resume
             an = {"enabled": True, "record": True, "plot": False, "benchmark": None} if with_an else False
-            return trading.run_trading(random.Random(1), S, kk, reseed_key="c14-%d" % seed, analyser=an)
+
+            def script(tr, handlers):
+                """strategy state that must survive the stop: a counter in the context, the universe, scheduler rules (weekly / monthly / daily)"""
+                from rqalpha.environment import Environment
+                init0, hb0 = handlers["init"], handlers["handle_bar"]
+                ids_ = [s_["id"] for s_ in S["stocks"]]
+
+                def init(context):
+                    import rqalpha.api as api
+                    init0(context)
+                    context.bars_seen = 0
+                    context.flag = False
+                    env = Environment.get_instance()
+                    log = lambda name: (lambda c, b: tr.events.append(("SCHEDULED", {"cal": env.calendar_dt, "rule": name, "bars_seen": c.bars_seen})))
+                    api.scheduler.run_daily(log("daily"))
+                    api.scheduler.run_weekly(log("weekly_td2"), tradingday=2)
+                    api.scheduler.run_weekly(log("weekly_last"), tradingday=-1)
+                    api.scheduler.run_monthly(log("monthly_td3"), tradingday=3)
+
+                def handle_bar(context, bar_dict):
+                    import rqalpha.api as api
+                    env = Environment.get_instance()
+                    context.bars_seen += 1
+                    context.flag = (context.bars_seen % 3 == 0)
+                    if ids_:
+                        live = [i for i in ids_ if env.data_proxy.instrument(i).listed_at(env.trading_dt)] if hasattr(env.data_proxy.instrument(ids_[0]), "listed_at") else ids_
+                        api.update_universe(live[: 1 + context.bars_seen % max(1, len(live))] or live[:1])
+                    tr.events.append(("UNIVERSE_ORDER", {"cal": env.calendar_dt, "keys": list(bar_dict.keys()), "bars_seen": context.bars_seen, "flag": context.flag}))
+                    hb0(context, bar_dict)
+                return dict(handlers, init=init, handle_bar=handle_bar)
+            return trading.run_trading(random.Random(1), S, kk, reseed_key="c14-%d" % seed, analyser=an, script=script)
         full = go(days[0], days[-1], False, False)
         if full.exc is not None:
             ctx.stats["full_run_failed"] += 1
